@@ -303,6 +303,7 @@ def run(ch: Checker) -> None:
     from .common import fresh_headers_check
     fresh_headers_check(ch, 'C06.6')
     # ---------------- C06.11-13 (shared)
+    ch.import_rules('C11', {'C11.11': 'C06.18'}, 'a complete request that arrives in one TLS record is answered only if one receive takes the whole record; otherwise its tail stays inside the SSL object and the connection is dropped silently by the idle reaper')
     ch.import_rules('C09', {'C09.3b': 'C06.17'}, 'a rejected tunnel request gets exactly one response only if nothing is queued for the client before the plugin chain has had its say')
     ch.import_rules('C11', {'C11.9': 'C06.16'}, 'a valid request gets its answer only if an incomplete TLS record is waited for instead of being treated as an error')
     ch.import_rules('C01', {'C01.2': 'C06.11', 'C01.3': 'C06.12'}, 'a reply is complete on the wire only if flush() removes exactly what send() accepted')
